@@ -1149,6 +1149,7 @@ func funcAt(p *Prog, region map[*ssa.Function]bool, s bceSite) *ssa.Function {
 }
 
 var c07Canaries = []Canary{
+	{Name: "r5-decodekv-elsewhere", ExpectKey: "C07.R3#decodeKV-caller", Edits: []Edit{{File: "lfs/pointer.go", Find: "func DecodePointer(reader io.Reader) (*Pointer, error) {\n\tp, _, err := DecodeFrom(reader)\n\treturn p, err", Repl: "func DecodePointer(reader io.Reader) (*Pointer, error) {\n\tdata, rerr := io.ReadAll(reader)\n\tif rerr != nil {\n\t\treturn nil, rerr\n\t}\n\tp, err := decodeKV(bytes.TrimSpace(data))\n\treturn p, err"}}},
 	{Name: "r4-read-at-least-one", ExpectKey: "C07.R7", Edits: []Edit{{File: "lfs/pointer.go", Find: "io.ReadFull(reader, buf)", Repl: "io.ReadAtLeast(reader, buf, 1)"}}},
 	{Name: "oid-uppercase", ExpectKey: "C07.R1#oidRE-language", Edits: []Edit{{File: "lfs/pointer.go", Find: "`\\A[0-9a-f]{64}\\z`", Repl: "`\\A[0-9a-fA-F]{64}\\z`"}}},
 	{Name: "oid-unanchored", ExpectKey: "C07.R1#oidRE-language", Edits: []Edit{{File: "lfs/pointer.go", Find: "`\\A[0-9a-f]{64}\\z`", Repl: "`\\A[0-9a-f]{64}`"}}},
